@@ -105,7 +105,7 @@ def main(argv):
 
     def noncomment(files):
         return [[f[0], [l for l in physical_lines(f[1]) if not l.startswith('//')]] for f in files]
-    nvb = 0
+    nvb = nfailb = 0
     for variants in pairs:
         for j in variants:
             rep.case({'cfg': bcases[j]['cfg']}, shape='build/' + bio[j][0])
@@ -139,8 +139,9 @@ def main(argv):
                     d = BC.first_diff([f[:2] + [f[3]] for f in i[1]], m[1]) if i[0] == 'ok' == m[0] else f'{i[0]} vs {m[0]}'
                     problem, failing, j = f'correspondence legA:Builder.build broken: {d}', False, v
                     break
-        if problem and nvb < 4:
+        if problem and (nvb < 4 or (failing and nfailb < 3)):
             nvb += 1
+            nfailb += 1 if failing else 0
             rep.violation(problem, {'file': bcases[j]['file'], 'configuration': bcases[j]['cfg'],
                                     'other_variants': [bcases[v]['cfg'] for v in variants]}, failing_input=failing)
     rep.extra['builds_varying_only_copyright_creator'] = len(bcases)
